@@ -7,6 +7,7 @@
 -/
 import Amqp.U32
 import Amqp.Gen.CreditKernels
+import Amqp.Gen.ListenerKernels
 
 namespace Amqp.Credit
 open Amqp Amqp.Gen.Credit
@@ -70,6 +71,11 @@ def tryConsume (s : SSt) (n : Nat) : Option (SSt × Nat) :=
     dc := try_consume.assign_delivery_count_0 n s.dc
     lc := try_consume.assign_link_credit_0 n s.lc }, s.dc)
 
+/-- source fact: `SenderLink::credit_and_room_or_detached` waits for one credit and takes one credit for
+    a delivery (`credit_available(1)`, `take_credit(1)`) — not one per transfer frame -/
+def oneCreditPerDelivery : Bool :=
+  open one_credit in decide (idx_credit_available___1__ < idx_take_credit___1__) && decide (idx_take_credit___1__ < 1000)
+
 inductive Op where
   | flow (f : LFlow)
   | send           -- one delivery: consume(1), however many frames carry it
@@ -95,6 +101,22 @@ def run (s : SSt) : List Op → SSt × List Out
     let (s1, o1) := step s op
     let (s2, o2) := run s1 ops
     (s2, o1 ++ o2)
+
+/-- link flows that reached a listener's session before the application accepted the link are kept
+    and applied when it does: one after the other, in the order they arrived -/
+def replay (s : SSt) (flows : List LFlow) : SSt := flows.foldl (fun st f => (onFlow st f).1) s
+
+/-- source fact: the listener replays the buffered flows oldest first (a `for` over the vector; no `pop`,
+    no `rev`) -/
+def replayOldestFirst : Bool :=
+  open Amqp.Gen.ListenerK.replay_order in
+  decide (idx_pending_link_flows___remove < idx_for_flow_in_pending_flows) &&
+  decide (idx_for_flow_in_pending_flows < idx_on_incoming_flow) &&
+  decide (idx_on_incoming_flow < 1000) && decide (idx_pop____ = 1000) && decide (idx___rev____ = 1000)
+
+/-- what the listener does with the buffered flows, in the order the source has now -/
+def replayAsSource (s : SSt) (flows : List LFlow) : SSt :=
+  replay s (if replayOldestFirst then flows else flows.reverse)
 
 /-! ## the wait protocol -/
 
